@@ -35,6 +35,30 @@ def sh(cmd, cwd=None, env=None, timeout=None):
     return p.returncode, p.stdout
 
 
+def sh_guarded(cmd, cwd=None, env=None, wall=900):
+    """run cmd in its own process group; after `wall` seconds send SIGQUIT (stack dump), then kill the group"""
+    import signal
+    p = subprocess.Popen(cmd, cwd=cwd, env=env, stdout=subprocess.PIPE, stderr=subprocess.STDOUT, text=True,
+                         errors="replace", start_new_session=True)
+    try:
+        out, _ = p.communicate(timeout=wall)
+        return p.returncode, out, False
+    except subprocess.TimeoutExpired:
+        try:
+            os.killpg(p.pid, signal.SIGQUIT)
+        except OSError:
+            pass
+        try:
+            out, _ = p.communicate(timeout=20)
+        except subprocess.TimeoutExpired:
+            try:
+                os.killpg(p.pid, signal.SIGKILL)
+            except OSError:
+                pass
+            out, _ = p.communicate()
+        return 124, out or "", True
+
+
 class Lock:
     def __init__(self, name):
         os.makedirs(BUILD, exist_ok=True)
@@ -248,10 +272,28 @@ def run_harness(cfg_h, tier, seed, outdir, log, n_override=None, only_case=None)
     if cfg_h.get("race") and tier == "thorough":
         cmd.append("-race")
     cmd.append(cfg_h["pkg"])
-    t0 = time.time()
-    rc, out = sh(cmd, cwd=REPO, env=env, timeout=6 * 3600)
-    log.append("== %s (rc=%d, %.1fs)\n%s" % (" ".join(cmd), rc, time.time() - t0, out[-6000:]))
-    return rc, out
+    # wall-clock guard: a quick-tier harness that has not finished after `wall` seconds (default 15 min,
+    # ten times its usual time) is sent SIGQUIT (Go prints every goroutine's stack), killed, and run once
+    # more from scratch; only a second overrun counts as a hang of the code under test (broken tie).  The
+    # stack dump of an overrun is kept under .build/replay/ either way.
+    wall = cfg_h.get("wall", {}).get(tier) if isinstance(cfg_h.get("wall"), dict) else None
+    if wall is None:
+        wall = 900 if tier == "quick" else 6 * 3600
+    for attempt in (1, 2):
+        t0 = time.time()
+        rc, out, overrun = sh_guarded(cmd, cwd=REPO, env=env, wall=wall)
+        log.append("== %s (rc=%d, %.1fs%s)\n%s" % (" ".join(cmd), rc, time.time() - t0, ", OVERRUN attempt %d" % attempt if overrun else "", out[-6000:]))
+        if not overrun:
+            return rc, out
+        dump = os.path.join(VERIF, ".build", "replay", "hang-%s-%s-attempt%d.txt" % (os.path.basename(outdir.rstrip("/")), cfg_h["run"].strip("^$"), attempt))
+        os.makedirs(os.path.dirname(dump), exist_ok=True)
+        open(dump, "w").write(" ".join(cmd) + "\n" + out[-400000:])
+        print("NOTE: harness %s %s did not finish within %ds (attempt %d); goroutine dump: %s" % (cfg_h["pkg"], cfg_h["run"], wall, attempt, dump))
+        if attempt == 1:
+            shutil.rmtree(outdir, ignore_errors=True)
+            os.makedirs(outdir, exist_ok=True)
+            make_overlay(cfg_h, outdir)
+    return 124, "harness did not finish within %d s in two attempts (hang)\n%s" % (wall, out[-3000:])
 
 
 # ---------------------------------------------------------------- findings
